@@ -502,6 +502,22 @@ fn check_case(c: &Case, acc: &mut Acc, rng: &mut Rng, states: usize) {
         }
     };
     let nodes: Vec<ParserNode> = nodes.into_iter().filter(|n| !matches!(n, ParserNode::ProgramEntry(_))).collect();
+    // the same line as the very end of a file (no line break behind it), and in front of a comment:
+    // what it is decoded into must not depend on what follows it
+    for (where_, t) in [("at-end-of-file", c.text.clone()), ("before-a-comment", format!("{} # c\n", c.text)), ("after-a-label", format!("here:\n{}\n", c.text))] {
+        if let Ok((_, n2, e2)) = guarded(|| rva::parse_only(rva::MemReader::single("main.s", &t), "main.s")) {
+            let n2: Vec<String> = n2.iter().filter(|n| !matches!(n, ParserNode::ProgramEntry(_) | ParserNode::Label(_))).map(|n| format!("{n}")).collect();
+            let n1: Vec<String> = nodes.iter().map(|n| format!("{n}")).collect();
+            acc.count("context_variants_compared", 1);
+            if n1 != n2 || errs.is_empty() != e2.is_empty() {
+                acc.violation(
+                    format!("C08|decode|{}|context|{where_}", c.mn),
+                    format!("`{}` is decoded as {n1:?} ({} errors) on a line of its own but as {n2:?} ({} errors) {where_}", c.text, errs.len(), e2.len()),
+                    json!({"text": c.text, "variant": t}),
+                );
+            }
+        }
+    }
     match &c.expect {
         Expect::Reject => {
             acc.count("reject_cases", 1);
@@ -851,7 +867,7 @@ pub fn run(ctx: &Ctx) -> i32 {
     let mut rep = Report::new(
         ctx,
         "table 1/2: every mnemonic x operand form printed with representative registers/immediates, parsed by the real parser, \
-         decoded nodes executed on the reference machine against the official expansion from boundary + random states; \
+         decoded nodes executed on the reference machine against the official expansion from boundary + random states; every form is also decoded as the very end of a file, in front of a comment and behind a label (same nodes expected); \
          table 3: MathOp::operate vs reference RV32IM ALU on the full 24x24 boundary grid per operator + random pairs; \
          table 4: the same grid through the whole analysis (`li; li; op` chunks with register, zero-register and immediate operand forms): every constant the analysis claims for a result must be the RV32IM value; with one operand loaded from memory a constant may only be claimed if the result does not depend on that operand; `lui` with boundary operands. \
          distinct_nontrivial = distinct instruction texts decoded and compared + (it does not count fold pairs)",
